@@ -121,6 +121,11 @@ type executor struct {
 	leaks []string // strings that must never appear in a response
 	stop  bool
 	api   *apiState
+	tags  map[string][]string // path -> entity tags announced for it (wire form), oldest first
+	last  *Exchange
+
+	curTag   string // entity tag (wire form) of the target just before a conditional request, "" = none
+	curKnown bool
 }
 
 // Execute runs a plan inside one synctest bubble.
@@ -380,6 +385,10 @@ func (ex *executor) serve(idx int, st *Step) *Exchange {
 func statusClass(c int) string { return fmt.Sprintf("%dxx", c/100) }
 
 func (ex *executor) rawStep(idx int, st *Step) {
+	st = ex.resolve(idx, st)
+	if ex.stop {
+		return
+	}
 	ex.seam.BeginStep(st.Faults)
 	for _, f := range st.Faults {
 		ex.res.Stats.FaultsPlan[f.Seam+":"+f.Kind]++
@@ -401,7 +410,165 @@ func (ex *executor) rawStep(idx int, st *Step) {
 		ex.res.Stats.FaultsFired["req-body:"+xc.BodyFault.Kind]++
 	}
 	ex.log.Addf("  -> %d %v body=%q", xc.Resp.Status, sortedHeader(xc.Resp.H), clipS(canonBody(&xc.Resp), 300))
+	ex.last = xc
+	ex.noteTag(xc)
 	ex.judgeExchange(idx, st, xc)
+}
+
+// noteTag remembers entity tags the server announces in headers.
+func (ex *executor) noteTag(xc *Exchange) {
+	if xc.Resp.Status/100 != 2 {
+		return
+	}
+	switch xc.Req.Method {
+	case "GET", "HEAD", "PUT":
+	default:
+		return
+	}
+	et := xc.Resp.H.Get("Etag")
+	np := model.Normalise(xc.Req.Path)
+	if et == "" || !np.OK {
+		return
+	}
+	if ex.tags == nil {
+		ex.tags = map[string][]string{}
+	}
+	if h := ex.tags[np.Path]; len(h) == 0 || h[len(h)-1] != et {
+		ex.tags[np.Path] = append(h, et)
+	}
+}
+
+// canonicalTarget spells a resource path as a plain request-target.
+func canonicalTarget(p string) string {
+	if p == "/" {
+		return "/"
+	}
+	var b strings.Builder
+	for _, s := range strings.Split(strings.TrimPrefix(p, "/"), "/") {
+		b.WriteByte('/')
+		for i := 0; i < len(s); i++ {
+			c := s[i]
+			if strings.IndexByte(unreserved, c) >= 0 {
+				b.WriteByte(c)
+			} else {
+				fmt.Fprintf(&b, "%%%02X", c)
+			}
+		}
+	}
+	return b.String()
+}
+
+// probeTag asks the server (HEAD) for the current entity tag of a stored file.
+// The probe is an ordinary request: every oracle judges it too.
+func (ex *executor) probeTag(idx int, p string) string {
+	e, ok := ex.snap[p]
+	if !ok || e.Dir {
+		return ""
+	}
+	pr := &Step{Client: -1, Method: "HEAD", Target: canonicalTarget(p), Probe: true}
+	ex.probe("tag-probe")
+	ex.rawStep(idx, pr)
+	if ex.last != nil && ex.last.Resp.Status == 200 {
+		return ex.last.Resp.H.Get("Etag")
+	}
+	return ""
+}
+
+// resolve replaces the placeholders a plan may carry because their values
+// only exist at run time: ${tag:current|stale|other} in conditional headers
+// and ${abs:<name>} (absolute host path of something in the sandbox).
+func (ex *executor) resolve(idx int, st *Step) *Step {
+	need := strings.Contains(st.Target, "${")
+	cond := false
+	for _, h := range st.Headers {
+		if strings.Contains(h[1], "${") {
+			need = true
+		}
+		if (st.Method == "PUT" || st.Method == "DELETE") && (strings.EqualFold(h[0], "If-Match") || strings.EqualFold(h[0], "If-None-Match")) {
+			cond = true
+		}
+	}
+	ex.curTag, ex.curKnown = "", false
+	if cond && !st.Probe {
+		if req, _ := buildRequest(&Step{Method: st.Method, Target: st.Target}); req != nil {
+			if np := model.Normalise(req.URL.Path); np.OK {
+				ex.curTag = ex.probeTag(idx, np.Path)
+				ex.curKnown = true
+				if ex.stop {
+					return st
+				}
+			}
+		}
+	}
+	if !need {
+		return st
+	}
+	c := *st
+	c.Headers = append([][2]string{}, st.Headers...)
+	abs := func(s string) string {
+		for {
+			i := strings.Index(s, "${abs:")
+			if i < 0 {
+				return s
+			}
+			j := strings.Index(s[i:], "}")
+			if j < 0 {
+				return s
+			}
+			name := s[i+6 : i+j]
+			s = s[:i] + strings.TrimPrefix(realfp.Join(ex.w.Sandbox, name), "/") + s[i+j+1:]
+		}
+	}
+	c.Target = abs(c.Target)
+	var target string
+	if req, _ := buildRequest(&Step{Method: c.Method, Target: c.Target}); req != nil {
+		if np := model.Normalise(req.URL.Path); np.OK {
+			target = np.Path
+		}
+	}
+	for i, h := range c.Headers {
+		v := abs(h[1])
+		if strings.HasPrefix(v, "${tag:") {
+			cur := ex.curTag
+			switch v {
+			case "${tag:current}":
+				v = cur
+				if v != "" {
+					ex.probe("cond-current-tag")
+				}
+			case "${tag:stale}":
+				v = ""
+				for _, old := range ex.tags[target] {
+					if old != cur {
+						v = old
+					}
+				}
+				if v != "" {
+					ex.probe("cond-stale-tag")
+				}
+			case "${tag:other}":
+				v = ""
+				var ps []string
+				for p := range ex.snap {
+					ps = append(ps, p)
+				}
+				sort.Strings(ps)
+				for _, p := range ps {
+					if p != target && !ex.snap[p].Dir && v == "" {
+						if o := ex.probeTag(idx, p); o != "" && o != cur {
+							v = o
+							ex.probe("cond-other-tag")
+						}
+					}
+				}
+			}
+			if v == "" {
+				v = "\"vsim-unknown-fallback\""
+			}
+		}
+		c.Headers[i] = [2]string{h[0], v}
+	}
+	return &c
 }
 
 // canonBody renders a response body for the event log. The order of the
@@ -474,6 +641,19 @@ func (ex *executor) judgeExchange(idx int, st *Step, xc *Exchange) {
 		ex.finding(Violation{Prop: prop, Clause: clause, Class: class, Msg: msg, Step: idx})
 	}
 
+	if xc.Resp.Status >= 400 {
+		ex.res.Stats.NonTrivial["C17|"+class+fmt.Sprintf(" status=%d", xc.Resp.Status)]++
+	}
+	if cfg.Hostile && len(ex.seam.Calls) > 0 {
+		ex.res.Stats.NonTrivial["C03|"+st.Method+"|"+clipS(strings.ReplaceAll(st.Target, ex.w.Sandbox, "$SB"), 60)]++
+		if dv, ok := xc.Req.H["Destination"]; ok {
+			ex.res.Stats.NonTrivial["C03|"+st.Method+"|dest|"+clipS(strings.ReplaceAll(dv, ex.w.Sandbox, "$SB"), 60)]++
+		}
+	}
+	if ex.curKnown && !st.Probe && (st.Method == "PUT" || st.Method == "DELETE") {
+		ex.checkHelper(idx, class, xc)
+	}
+
 	// C13: the handler must not panic
 	if xc.Panic != "" {
 		ex.res.Stats.Panics++
@@ -482,6 +662,12 @@ func (ex *executor) judgeExchange(idx int, st *Step, xc *Exchange) {
 
 	// C17: no response byte sequence contains the host path
 	for _, leak := range ex.leaks {
+		if requestCarries(st, leak) || requestCarries(st, ex.w.Sandbox) {
+			// the client itself sent the path (hostile workload): echoing it
+			// back discloses nothing
+			ex.probe("leak-check-skipped-client-sent-the-path")
+			continue
+		}
 		if where := findLeak(&xc.Resp, leak); where != "" {
 			culprit := ""
 			for _, c := range ex.seam.Calls {
@@ -592,6 +778,19 @@ func errKind(e string) string {
 	return e
 }
 
+func requestCarries(st *Step, leak string) bool {
+	l := strings.TrimPrefix(leak, "/")
+	if strings.Contains(st.Target, l) {
+		return true
+	}
+	for _, h := range st.Headers {
+		if strings.Contains(h[1], l) {
+			return true
+		}
+	}
+	return false
+}
+
 func findLeak(r *model.Response, leak string) string {
 	for k, vs := range r.H {
 		for _, v := range vs {
@@ -615,6 +814,48 @@ func leakContext(r *model.Response, leak string) string {
 		}
 	}
 	return string(r.Body)
+}
+
+// checkHelper compares the public ConditionalMatch helpers with the statement
+// of C04: MatchETag is true exactly for "*" or an equal tag against an existing
+// resource.
+func (ex *executor) checkHelper(idx int, class string, xc *Exchange) {
+	cur := ex.curTag // wire form: a quoted string, or "" when there is no file
+	plain := ""
+	simple := false
+	if len(cur) >= 2 && cur[0] == '"' && cur[len(cur)-1] == '"' && !strings.ContainsAny(cur[1:len(cur)-1], "\"\\") {
+		plain, simple = cur[1:len(cur)-1], true
+	}
+	for _, h := range []string{"If-Match", "If-None-Match"} {
+		v, ok := xc.Req.H[h]
+		if !ok {
+			continue
+		}
+		cm := webdav.ConditionalMatch(v)
+		bad := func(msg string) {
+			ex.finding(Violation{Prop: "C04", Clause: "helper-disagrees", Class: class, Msg: fmt.Sprintf("ConditionalMatch(%q): %s", v, msg), Step: idx})
+		}
+		if cm.IsSet() != (v != "") {
+			bad(fmt.Sprintf("IsSet() = %v", cm.IsSet()))
+		}
+		if cm.IsWildcard() != (v == "*") {
+			bad(fmt.Sprintf("IsWildcard() = %v", cm.IsWildcard()))
+		}
+		if got, _ := cm.MatchETag(""); got {
+			bad("MatchETag(\"\") is true although no resource exists")
+		}
+		if simple {
+			got, err := cm.MatchETag(plain)
+			want := v == "*" || v == cur
+			if got != want && !(err != nil && !want) {
+				bad(fmt.Sprintf("MatchETag(%q) = %v, %v; the statement says %v", plain, got, err, want))
+			}
+			if want && err != nil {
+				bad(fmt.Sprintf("MatchETag(%q) returns an error for a matching tag: %v", plain, err))
+			}
+			ex.probe("helper-compared")
+		}
+	}
 }
 
 // classFromSnapshot is a model-free request class for profiles that do not
@@ -702,7 +943,7 @@ func (ex *executor) checkHrefs(idx int, class string, xc *Exchange, snap map[str
 		for _, h := range r.Hrefs {
 			ref := model.ParseHref(h)
 			n := model.Normalise(ref.Path)
-			if !ref.OK || !n.OK || n.Escapes || ref.HasAuth {
+			if !ref.OK || !n.OK || ref.HasAuth {
 				ex.finding(Violation{Prop: "C03", Clause: "href-outside", Class: class, Msg: fmt.Sprintf("href %q does not lie inside the served namespace", h), Step: idx})
 				continue
 			}
@@ -711,7 +952,7 @@ func (ex *executor) checkHrefs(idx int, class string, xc *Exchange, snap map[str
 				ex.finding(Violation{Prop: "C03", Clause: "href-other-resource", Class: class, Msg: fmt.Sprintf("href %q (= %s) addresses nothing that is stored", h, n.Path), Step: idx})
 				continue
 			}
-			if rt := r.Prop("{DAV:}resourcetype"); rt != nil {
+			if rt := r.Prop("{DAV:}resourcetype"); rt != nil && !strings.Contains(model.PropfindForm(&xc.Req), "propname") {
 				if (rt.Elem.Child(model.DAV, "collection") != nil) != e.Dir {
 					ex.finding(Violation{Prop: "C03", Clause: "href-other-resource", Class: class, Msg: fmt.Sprintf("href %q (= %s) is described as collection=%v but addresses a %v", h, n.Path, !e.Dir, e.Dir), Step: idx})
 				}
@@ -728,19 +969,31 @@ func (ex *executor) judgeDiskFault(idx int, class string, st *Step, xc *Exchange
 		ex.finding(Violation{Prop: "C02", Clause: clause, Class: class + " disk-fault", Msg: msg, Step: idx})
 	}
 	var hits []string
-	dataPhase, removePhase := false, false
+	// complete: some file received every byte of the body through successful
+	// writes and was then closed successfully (the new content existed as a
+	// whole; the failure that was reported came from another call)
+	complete, removePhase := false, false
+	written := map[string]int{}
 	for _, c := range ex.seam.Calls {
-		if c.Injected == "" {
+		if c.Injected != "" {
+			hits = append(hits, c.Fn+"="+c.Injected)
+			if c.Op == "remove" || c.Op == "unlinkat" {
+				removePhase = true
+			}
 			continue
 		}
-		hits = append(hits, c.Fn+"="+c.Injected)
+		if !c.Writable || c.Err != "" {
+			continue
+		}
 		switch c.Op {
-		case "open", "write", "close", "sync", "truncate":
-			if c.Writable {
-				dataPhase = true
+		case "open":
+			written[c.Path] = 0
+		case "write":
+			written[c.Path] += c.N
+		case "close":
+			if n, ok := written[c.Path]; ok && n == len(st.Body) {
+				complete = true
 			}
-		case "remove", "unlinkat":
-			removePhase = true
 		}
 	}
 	what := strings.Join(hits, ",")
@@ -789,7 +1042,7 @@ func (ex *executor) judgeDiskFault(idx int, class string, st *Step, xc *Exchange
 	} else {
 		switch {
 		case isOld:
-		case isNew && !dataPhase:
+		case isNew && complete:
 			ex.probe("disk-fault-after-commit")
 		default:
 			add("torn-after-disk-fault", fmt.Sprintf("injected %s; PUT answered %d; the target holds neither its complete old content nor the complete new one (old: %s, now: %s)", what, xc.Resp.Status, descEntry(old, hadOld), descEntry(now, hasNow)))
